@@ -37,7 +37,7 @@ func init() {
 			{Name: "S-BLOCK/scripted-download", Weight: 2, Run: c04ScriptedDownload},
 			{Name: "S-BLOCK/scripted-upload", Weight: 2, Run: c04ScriptedUpload},
 		},
-		Quick:    30000,
+		Quick:    150000,
 		Thorough: 1500000,
 		Assume: []string{
 			"the property does not promise success: a failed transfer is never a violation; completion in fault-free runs is reported as a probe (transfer.completed vs transfer.failed)",
